@@ -12,6 +12,7 @@ import (
 	"runtime"
 	"sort"
 	"sync"
+	"sync/atomic"
 	"time"
 
 	of "github.com/contiv/libOpenflow/openflow13"
@@ -79,11 +80,22 @@ func (c *scriptConn) Write(b []byte) (int, error) {
 		runtime.Gosched() // a large write takes its time
 		time.Sleep(50 * time.Microsecond)
 	}
+	if len(b) == 0 { // nothing to send (a message that could not be encoded): not a frame
+		return 0, nil
+	}
 	c.mu.Lock()
 	c.writes = append(c.writes, append([]byte{}, b...))
 	c.mu.Unlock()
 	return len(b), nil
 }
+
+// badMsg: a message whose encoding fails (any util.Message can be submitted); it has nothing to
+// be written, and must not keep later messages from being written
+type badMsg struct{}
+
+func (badMsg) Len() uint16                               { return 0 }
+func (badMsg) MarshalBinary() ([]byte, error)            { return nil, errors.New("cannot be encoded") }
+func (badMsg) UnmarshalBinary(b []byte) error            { return nil }
 func (c *scriptConn) Close() error                       { c.once.Do(func() { close(c.closed) }); return nil }
 func (c *scriptConn) LocalAddr() net.Addr                { return addr{} }
 func (c *scriptConn) RemoteAddr() net.Addr               { return addr{} }
@@ -400,13 +412,31 @@ func runC11(seed uint64, tier, dir, replay string) error {
 		conn := &scriptConn{closed: make(chan struct{})}
 		old := runtime.GOMAXPROCS([]int{1, 2, 4, 16}[rng.Intn(4)])
 		s := util.NewMessageStream(conn, rawParser{})
+		unencodable := rng.Intn(4) == 0
+		var stalled int32
 		var wg sync.WaitGroup
 		for p := range seqs {
 			wg.Add(1)
 			go func(p int) {
 				defer wg.Done()
-				for _, m := range seqs[p] {
-					s.Outbound <- m
+				submit := func(m util.Message) bool { // a writer that has stopped taking messages shows as a stall
+					select {
+					case s.Outbound <- m:
+						return true
+					case <-time.After(3 * time.Second):
+						atomic.StoreInt32(&stalled, 1)
+						return false
+					}
+				}
+				for k, m := range seqs[p] {
+					if unencodable && p == 0 && (k == 0 || k == len(seqs[p])/2) {
+						if !submit(badMsg{}) { // two messages without an encoding among the others
+							return
+						}
+					}
+					if !submit(m) {
+						return
+					}
 				}
 			}(p)
 		}
@@ -428,6 +458,9 @@ func runC11(seed uint64, tier, dir, replay string) error {
 		conn.mu.Unlock()
 		// each Write must be exactly one submitted encoding; also re-frame the whole wire by header length
 		whole := 1
+		if atomic.LoadInt32(&stalled) == 1 {
+			whole = 0 // the writer stopped taking messages
+		}
 		var wire []byte
 		var wireIDs []uint64
 		for _, w := range writes {
@@ -458,6 +491,6 @@ func runC11(seed uint64, tier, dir, replay string) error {
 			map[string]interface{}{"kind": "outbound", "producers": np, "messages": total, "writes": len(writes), "frames_on_wire": len(wireIDs), "whole_frames": whole == 1},
 			"outbound", fmt.Sprintf("%d/%d", np, total/16))
 	}
-	o.Meta["rule"] = "real util.MessageStream: 1..32 producer goroutines each submitting 1..40 messages (opaque frames of 8..6048 bytes incl. sizes around and beyond 2 KiB, and real controller messages of mixed kinds) to Outbound concurrently, GOMAXPROCS 1/2/4/16; every Write of the scripted connection must be exactly one submitted encoding, the recorded byte stream re-framed by header length must be a merge of the producers' sequences; distinct by producers x message-count bucket"
+	o.Meta["rule"] = "real util.MessageStream: 1..32 producer goroutines each submitting 1..40 messages (opaque frames of 8..6048 bytes incl. sizes around and beyond 2 KiB, and real controller messages of mixed kinds; in one history out of four also two messages whose encoding fails) to Outbound concurrently, GOMAXPROCS 1/2/4/16; every Write of the scripted connection must be exactly one submitted encoding, the recorded byte stream re-framed by header length must be a merge of the producers' sequences; distinct by producers x message-count bucket"
 	return o.Close()
 }
